@@ -1,6 +1,6 @@
 (* Extraction of the syntax-layer model (lexer, escape, quoting, ...) -- ExtrOcamlBasic only. *)
 From OV Require Import Base.Strs Syn.Escape Syn.Quote Syn.Ast Syn.Emitter Lex.Lexer Syn.Parser Syn.Wf Syn.StrictProfile Rt.TokRound Rt.TokRoundEx Rt.LexLink Rt.StrictEmit Rt.TokRound2 Rt.TokRound2Ex Rt.LexLink2Text.
-From OV Require Rt.BareWordParse Rt.BareWord Rt.TokRound4 Rt.TokRound4Ex Rt.LexLink4 Rt.TokRoundZ Rt.TokRoundZEx Rt.LexLinkZText Rt.TokRoundT Rt.TokRoundTEx Rt.LexLinkTH4.
+From OV Require Rt.BareWordParse Rt.BareWord Rt.TokRound4 Rt.TokRound4Ex Rt.LexLink4 Rt.TokRoundZ Rt.TokRoundZEx Rt.LexLinkZText Rt.TokRoundT Rt.TokRoundTEx Rt.LexLinkTH4 Rt.LexLinkTH5.
 Require Import ExtrOcamlBasic.
 
 Definition cls_of (tbl : list (N * N)) (c : N) : N :=
@@ -57,10 +57,10 @@ Definition in_corez_domain (tbl : list (N * N)) (d : doc) : bool := TokRoundZ.co
 Definition coret_shape_tbl (tbl : list (N * N)) (nums : list (str * (bool * str))) (holos : list str) (d : doc) (lines : list (str * str)) : N :=
   TokRoundTEx.coret_shape_check (cls_of tbl) (numcanon_of nums) (fun raw => str_in raw holos) d lines.
 Definition is_coret (d : doc) : bool := TokRoundT.coret_doc d.
-(* domain of C02_text_roundtrip_holographic_target_chains (text level, lexer half closed): the union class of holographic frames with the
+(* domain of C02_text_roundtrip_holographic_element_chains (coreth5 includes coreth4; text level, lexer half closed): the union class of holographic frames with the
    textual shape oracle hsh_cls4 and the boolean clauses on the character-class table *)
 Definition in_coreth4_domain (tbl : list (N * N)) (d : doc) : bool :=
-  LexLinkTH4.coreth4_doc d && LexLinkTH4.lex_safeth4_doc (cls_of tbl) LexLinkTH4.hsh_cls4 d.
+  LexLinkTH5.coreth5_doc d && LexLinkTH5.lex_safeth5_doc (cls_of tbl) LexLinkTH5.hsh_cls5 d.
 
 Extraction "../ocaml/gen/syn.ml" extract_anchor tokenize_tbl tkind_code escape unescape escape_opt unescape_opt escape_safe
   needs_quotes emit_str always_quote_key match_identifier match_annotation match_expression match_variable reserved_prefix scalar_class
